@@ -112,6 +112,8 @@ def run(tier, seed, replay=None):
             PROJ = ["proj", "proj", "build", "venv", "dist", "Env", "my.egg-info", "node_modules"][ti % 8]
             write_tree(os.path.join(base, PROJ), tree)
             hist["trees"] += 1
+            if "sample_tree" not in hist:
+                hist["sample_tree"] = ["/".join(r) for r in tree[:12]]
             sp = spellings(base, PROJ)
             psets = [PATTERN_SETS[0]] + rng.sample(PATTERN_SETS[1:], 3)
             calls, meta = [], []
@@ -245,7 +247,7 @@ def run(tier, seed, replay=None):
                 "node_modules, Env); per tree the default patterns + 3 of 8 other pattern sets x recursive on/off x 11 spellings of the target (., ./, rel, rel/, ./rel, abs, abs/, "
                 "../rel, a/../rel, from 4 working directories incl. /); overlapping and repeated targets; the real CLI with default and configured patterns; non-trivial = a "
                 "(tree, pattern set) that selects at least one file",
-        "samples": [],
+        "samples": [{"tree": hist.get("sample_tree"), "patterns": PATTERN_SETS[0], "spellings": [".", "./", "proj", "proj/", "<abs>", "../proj", "a/../proj"]}],
         "traces_validated_against_impl": hist["collect_calls"] + hist["glob_pairs"],
         "distribution": hist,
     })
